@@ -12,7 +12,7 @@ package) x call plans (a subset of <= 4 flattened arguments with values) x {sync
   sync == asyncio.
 Shapes on which the real code is known to break the statement are kept out of the random stream only
 when they would take the whole emitted module down (SyntaxError / generator crash); they are replayed
-from corpus/C05 on every run.
+from corpus/C05 on every run, together with the regression inputs of repaired defects (which must pass).
 """
 from __future__ import annotations
 import copy, glob, json, os
@@ -78,9 +78,11 @@ SAFE_DEPS = [k for k in DEP_REQUESTS if k not in (".google.api.ResourceDescripto
 # dotted paths below the helper messages that the random stream may use
 SUB_PATHS = {
     "book": ["name", "inner", "inner.title", "inner.count", "inner.marks", "inner.class", "inner.notes", "inner.hue",
-             "inner.flag", "type", "type.title", "type.count", "type.marks", "pages", "labels", "mask", "title"],
+             "inner.flag", "type", "type.title", "type.count", "type.marks", "import.title", "import.class", "import.marks",
+             "pages", "labels", "mask", "title"],
     "inner": ["title", "count", "marks", "class", "notes", "hue", "blob", "big"],
     "any": ["title", "count", "class"],
+    "import": ["title", "count", "marks", "class"],       # a keyword in NON-terminal position (§9-F2, repaired by a0434d5)
 }
 
 
@@ -91,7 +93,7 @@ def gen_method(r: apigen.Rng, idx: int):
         pool = DEP_REQUESTS[dep][1]
         m = {"name": f"Dep{idx}", "dep": dep, "fields": None}
     else:
-        names = ["parent"] + r.sample([n for n in FIELD_KINDS if n not in ("parent", "import", "retry", "timeout")], r.randint(3, 9))
+        names = ["parent"] + r.sample([n for n in FIELD_KINDS if n not in ("parent", "retry", "timeout")], r.randint(3, 9))
         if "choice_b" in names and "choice_a" not in names:
             names.append("choice_a")
         if "opt" in names:                # synthetic oneofs (proto3 optional) come after the real ones, as protoc orders them
@@ -117,8 +119,6 @@ def gen_method(r: apigen.Rng, idx: int):
                 parts.append(p)           # the same key may recur in a later signature (ordered-dict semantics)
                 continue
             if term in used_terminal:     # two keys with one parameter name: SyntaxError in the emitted def (corpus)
-                continue
-            if any(s in PY_KEYWORDS for s in segs[:-1]):      # §9-F2 (corpus)
                 continue
             if p.startswith("choice_"):
                 if used_oneof:
@@ -407,8 +407,6 @@ def shape_flags(codec, input_full, sigs, reserved, cross):
         owner, fd = ch[-1]
         if cross and (fd.message_type is not None or fd.enum_type is not None):
             continue
-        if any(s in PY_KEYWORDS for s in segs[:-1]):
-            flags.add("keyword-nonterminal")
         if cross and any(s in reserved for s in segs):
             flags.add("cross-reserved")
         if cross and len(segs) > 1:
@@ -428,8 +426,6 @@ def classify(kind, flags, plan=None, msg=""):
     """canonical signature key of a failure: a known excluded shape + the observable it is known to break, else generic"""
     if kind == "generation-crash" and "cross-reserved" in flags and "KeyError" in msg:
         return "cross-package-reserved-name:generator-keyerror"
-    if kind == "import-failed" and "keyword-nonterminal" in flags and "SyntaxError" in msg and "duplicate argument" not in msg:
-        return "keyword-in-nonterminal-segment:syntaxerror"
     if kind == "import-failed" and "dup-param" in flags and "duplicate argument" in msg:
         return "duplicate-parameter-name:syntaxerror"
     if plan is not None:
@@ -771,7 +767,8 @@ CLAIM = dict(
           'same-package request is plain assignment unconditionally (apply_sync_eq_set_unconditional); (3) request + any flattened argument, '
           'falsy ones included, raises ValueError before anything is sent, and only then (mixed_call_rejected, rejected_before_send, '
           'value_error_iff_mixed); (4) every rendered request.<key> is a keyword-free attribute path that proto-plus resolves to the fields '
-          'get_field found when no non-terminal segment is a reserved word (key_attr_resolves). Six *_counterexample theorems pin the inputs '
+          'get_field found, reserved words and keywords in any position included (key_attr_resolves, emit_never_keyword_attr; regression for the '
+          'repaired §9-F2: keyword_segment_regression). Five *_counterexample theorems pin the inputs '
           'where the real code leaves the statement (all reproduced on /repo, see findings/C05.json). Tie: T1 bridge lemmas for RESERVED_NAMES '
           'and keyword.kwlist; T2 the real flattened_fields/_fields_mapping vs the model on generated and unresolvable signatures; T3 the emitted '
           'sync and asyncio clients against a loopback gRPC server (inspect.signature; bytes of kwargs / request / mixed calls decoded under the '
@@ -783,5 +780,5 @@ CLAIM = dict(
           'python-level type errors are outside the model (the generator keeps to one oneof member per method and treats well-known types as '
           'leaves). The kwargs==request oracle is not applied to default-valued arguments of dotted keys (presence of the parents is not fixed '
           'by the statement); sync==asyncio is. Requests from a proto sub-package of the API (proto-plus types with a different package tuple) '
-          'are not generated. Six known findings are listed in findings/C05.json and replayed from corpus/C05 on every run.'),
+          'are not generated. Five known findings are listed in findings/C05.json and replayed from corpus/C05 on every run.'),
 )
